@@ -524,7 +524,7 @@ func init() {
 			}
 			runType(c, idx, memo[c.Tier][idx], b)
 		},
-		WorkerEnv: []string{"GOGC=off", "GODEBUG=clobberfree=1,invalidptr=1"},
+		WorkerEnv: []string{"GOGC=off", "GODEBUG=clobberfree=1,invalidptr=1", "GOMAXPROCS=2"},
 		Budget:    func(tier string) time.Duration { return 40 * time.Minute },
 	})
 }
